@@ -8,10 +8,12 @@ mod bisim;
 mod cmodel;
 mod codec;
 mod ev;
+mod families;
 mod gen;
 mod mon;
 mod prog;
 mod reg;
+mod regeq;
 mod sdesc;
 mod settingsgen;
 mod sim;
@@ -56,6 +58,51 @@ fn main() {
     let monitors = mon::all();
     let find = |id: &str| monitors.iter().find(|m| m.meta.id == id);
     match cmd {
+        "polkadot-hash" => {
+            // development aid: fingerprint of the de-duplicated Polkadot registry and its module
+            let mut r = reg::load_polkadot();
+            scale_typegen::utils::ensure_unique_type_paths(&mut r).expect("dedup");
+            let d = sdesc::SDesc { root: "root".into(), ..Default::default() };
+            let (g, _) = gen::generate_model(&r, &d);
+            match g {
+                Ok(g) => println!(
+                    "registry={:016x} tokens={:016x} items={}",
+                    reg::fingerprint(&r),
+                    hash_of(&g.tokens.to_string()),
+                    g.cm.items.len()
+                ),
+                Err(e) => println!("generation failed: {e}"),
+            }
+        }
+        "debug-te" => {
+            let body: serde_json::Value =
+                serde_json::from_str(&std::fs::read_to_string(&args[2]).unwrap()).unwrap();
+            let mut r = reg::from_json(&body["replay"]["registry"]);
+            let (a, b): (u32, u32) = (args[3].parse().unwrap(), args[4].parse().unwrap());
+            for id in [a, b] {
+                println!("{id}: {}", serde_json::to_string(&r.types[id as usize].ty).unwrap());
+            }
+            scale_typegen::verif_hooks::start();
+            scale_typegen::utils::ensure_unique_type_paths(&mut r).unwrap();
+            let ev = scale_typegen::verif_hooks::take();
+            for (p, ids) in reg::families(&r) {
+                if ids.len() > 1 {
+                    println!("family {} {:?} classes(oracle) {:?}", p.join("::"), ids, regeq::classes(&r, &ids));
+                }
+            }
+            println!("reg_equiv({a},{b}) after dedup = {}", regeq::reg_equiv(&r, a, b));
+            let mut on = false;
+            for e in ev {
+                if e.tag == "te:query" {
+                    on = (e.a == a && e.b == b) || (e.a == b && e.b == a);
+                    if on {
+                        println!("QUERY {} {} -> {}", e.a, e.b, e.c);
+                    }
+                } else if on {
+                    println!("  {} {} {} {}", e.tag, e.a, e.b, e.c);
+                }
+            }
+        }
         "list" => {
             for m in &monitors {
                 println!("{}", m.meta.id);
@@ -70,9 +117,27 @@ fn main() {
             let progress = arg_val(&args, "--progress").map(std::path::PathBuf::from);
             let m = find(&id).unwrap_or_else(|| panic!("no monitor {id}"));
             let run = m.run;
+            let replay = m.replay;
             install_panic_hook();
             let res = run_in_big_stack(move || {
                 let mut ctx = Ctx::new(&id, tier, seed, shard, of, progress);
+                if shard == 0 {
+                    // pinned witnesses of known findings (open: must still fail and are reported
+                    // as KNOWN-FINDING; fixed: regression inputs that must stay silent)
+                    for k in load_known().iter().filter(|k| k.property == id) {
+                        let Some(w) = &k.witness else { continue };
+                        let path = verif_dir().join(w);
+                        match std::fs::read_to_string(&path).ok().and_then(|s| serde_json::from_str::<serde_json::Value>(&s).ok()) {
+                            Some(body) => {
+                                let payload = if body.get("replay").is_some() { body["replay"].clone() } else { body };
+                                ctx.begin_case(&format!("pinned witness {w}"));
+                                replay(&mut ctx, &payload);
+                                ctx.count("pinned_witnesses_replayed", 1);
+                            }
+                            None => ctx.inconclusive(format!("pinned witness {w} unreadable")),
+                        }
+                    }
+                }
                 run(&mut ctx);
                 ctx.res
             });
